@@ -20,7 +20,7 @@ import (
 var (
 	repoDir = flag.String("repo", "/repo", "repository working tree")
 	outDir  = flag.String("out", "/verif/lean/Seccomp/Gen", "output directory for generated Lean files")
-	targets = flag.String("targets", "quick", "build targets for Consts: quick | all")
+	targets = flag.String("targets", "quick", "build targets for Consts: quick | all | goos/goarch,goos/goarch,…")
 	jsonOut = flag.String("json", "", "also write the facts as JSON to this file")
 	only    = flag.String("only", "", "comma separated subset: tables,names,consts,skeletons,purity")
 )
